@@ -431,7 +431,8 @@ func (fi *FuncInfo) Visit(node ast.Node) ast.Visitor {
 		}
 		return fi
 	case *ast.RangeStmt:
-		if _, ok := fi.pkgInfo.TypeOf(n.X).Underlying().(*types.Chan); ok {
+		// The operand may have the type of a type parameter (func F[C ~chan E, E any](c C)).
+		if _, ok := fi.resolver.Substitute(fi.pkgInfo.TypeOf(n.X)).Underlying().(*types.Chan); ok {
 			// for-range loop over a channel is blocking.
 			fi.markBlocking(fi.visitorStack)
 		}
